@@ -523,6 +523,17 @@ fn gen_tlv(repo: &Path, out: &Path) {
     write_if_changed(&out.join("TlvConsts.lean"), &s);
 }
 
+fn gen_resolution(repo: &Path, out: &Path) {
+    let f = parse_file(&repo.join("tlv-account-resolution/src/account.rs"));
+    let mut env = Consts::new();
+    collect_consts(&f.items, "", &mut env);
+    let top = const_val(&env, "U8_TOP_BIT", "account.rs");
+    let mut s = String::new();
+    writeln!(s, "-- GENERATED by /verif/harness `extract` from /repo/tlv-account-resolution/src/account.rs — do not edit").unwrap();
+    writeln!(s, "namespace Gen.Resolution\ndef U8_TOP_BIT : Nat := {top}\nend Gen.Resolution").unwrap();
+    write_if_changed(&out.join("ResolutionConsts.lean"), &s);
+}
+
 fn main() {
     let args: Vec<String> = std::env::args().collect();
     if args.len() != 3 {
@@ -535,6 +546,7 @@ fn main() {
     gen_token(&repo, &out);
     gen_disc(&repo, &out);
     gen_tlv(&repo, &out);
+    gen_resolution(&repo, &out);
     gen_err_consts(&repo, &out);
     gen_error_enums(&repo, &out);
 }
